@@ -21,7 +21,7 @@ LEVEL_TEXT = ('Deciding tier is bounded (labelled bounded, not proved): every op
               'P.q..back into P.back for every parent path P, single segment q and remainder; the first-segment split returns (a, b) for a.b and .a.b.')
 LEVEL_NOTE = 'T9 fragments of _resolve only (bracketed segments, eval of index expressions, the mapping operations and iteration are bounded-only). Indexes beyond a list length are outside the checked domain (membership raises IndexError there on this tree).'
 TECHNIQUE = 'bounded exhaustive + seeded random operation sequences on the real dotdict against an independent nested-dict model; deductive fragment contracts (pyvc, cvc5 strings) on dotdict_base._resolve'
-TRUSTED = ['the nested-dict model in this file', 'T9 fragment contracts: the rest of _resolve (bracket balancing) is unverified', 'str.rfind of one character: exact last-occurrence characterisation']
+TRUSTED = ['the nested-dict model in this file', 'lookup-form contracts: dotdict_base.__getitem__ by an assumed model (uninterpreted table over whole paths: value or KeyError); the built-in dict under super() a different table', 'T9 fragment contracts: the rest of _resolve (bracket balancing) is unverified', 'str.rfind of one character: exact last-occurrence characterisation']
 ASSUMPTIONS = ['keys over {a,b,c,l,m}, depth <= 3, list indexes in range']
 
 
